@@ -662,6 +662,9 @@ func (it *Interp) engineMethodExtra(iv *IfaceV, name string) Value {
 	if iv.T == ctxT {
 		return it.ctxMethod(iv.V.(*CtxObj), name)
 	}
+	if iv.T == hmacT {
+		return it.hmacMethod(iv.V.(*hmacObj), name)
+	}
 	if iv.T == crcDigestT {
 		return it.crcDigestMethod(iv.V.(*crcDigest), name)
 	}
